@@ -42,7 +42,8 @@ Section WMCProofs.
   Notation "1" := (s1 S).
   Infix "+" := (sadd S).
   Infix "*" := (smul S).
-  Add Ring Sring : laws.
+  Let laws' : semi_ring_theory (s0 S) (s1 S) (sadd S) (smul S) (@eq (car S)) := laws.
+  Add Ring Sring : laws'.
 
   Notation wmc := (wmc S w).
   Notation eval := (eval S w).
@@ -153,7 +154,7 @@ Section WMCProofs.
     - change (tvars (NLit v b)) with [v].
       rewrite (filter_ext _ (fun x => Nat.eqb x v)) by (intros x; unfold memb; simpl; apply orb_false_r).
       rewrite (filter_single U v ND) by (apply Hincl; left; reflexivity).
-      simpl. unfold upd. rewrite !Nat.eqb_refl. destruct b; simpl; ring.
+      cbn [ModelCircuit.wmc]. rewrite !evalb_lit. unfold upd. rewrite !Nat.eqb_refl. unfold eval. simpl. destruct b; simpl; ring.
     - inversion Hdec as [| | |? HdF HdP|]; subst. inversion Hdet as [| | |? HtF|]; subst. inversion Hsm as [| | |? HsF|]; subst.
       rewrite eval_and. rewrite tvars_and in *.
       rewrite (wmc_ext _ (fun a => evalb a (NAnd l)) (fun a => forallb (evalb a) l)) by (intros; apply evalb_and).
@@ -250,4 +251,15 @@ Proof.
   destruct (check_ddnnf_sound n C f H) as [_ [_ [_ [Hs [Hcov [_ Heq]]]]]].
   rewrite c_occurs_tree in Hocc. rewrite <- Heq, c_evalb_tree in Hsat.
   exact (absent_literal_tree v b (root_tree C) Hs Hocc (Hcov v Hv) a Hsat).
+Qed.
+
+(* the explicit-sum form of the main theorem, DAG level *)
+Theorem eval_is_wmc_sum_dag : forall (S : sr_ops), sr_laws S -> forall (w : nat -> bool -> S) U C,
+  NoDup U -> incl (tvars (root_tree C)) U ->
+  decomposable C -> deterministic C -> smooth C ->
+  forall a, c_eval S w C =
+            wmc_sum S w (filter (memb (tvars (root_tree C))) U) (fun a => c_evalb a C) a.
+Proof.
+  intros S laws w U C ND Hincl Hd Ht Hs a.
+  rewrite <- (wmc_is_sum S laws w). apply eval_is_wmc_dag; assumption.
 Qed.
